@@ -128,7 +128,9 @@ def memo_path(key):
 
 def routes_batch(seed, tier, l2, driver, extra_profiles=None, tag="routes", sizes=None):
     sizes = sizes or TIER_SIZES[tier]
-    key = hashlib.sha256(("%s|%s|%s|%d|%s|%s|%s" % (tag, l2, driver, seed, tier, json.dumps(sizes, sort_keys=True), extra_profiles)).encode()).hexdigest()[:24]
+    profiles = extra_profiles or ("opt", "loops", "wide", "tiny", "grid", "grid300", "rewrites", "mixedwait", "asymfp")
+    gen_src = hashlib.sha256(open(os.path.join(HERE, "gen.py"), "rb").read()).hexdigest()[:12]     # generator changes re-run the batch
+    key = hashlib.sha256(("%s|%s|%s|%d|%s|%s|%s|%s" % (tag, l2, driver, seed, tier, json.dumps(sizes, sort_keys=True), profiles, gen_src)).encode()).hexdigest()[:24]
     mp = memo_path(key)
     with build.Lock("memo-" + key):
         if os.path.exists(mp):
@@ -138,7 +140,6 @@ def routes_batch(seed, tier, l2, driver, extra_profiles=None, tag="routes", size
         shutil.rmtree(d, ignore_errors=True)
         corpus = sorted(os.path.join(VERIF, "corpus", "l2", f) for f in os.listdir(os.path.join(VERIF, "corpus", "l2"))) \
             if os.path.isdir(os.path.join(VERIF, "corpus", "l2")) else []
-        profiles = extra_profiles or ("opt", "loops", "wide", "tiny", "grid", "grid300", "rewrites", "mixedwait")
         cases = corpus + gen.gen_batch(d, seed, sizes["count"], sizes["nq"], profiles=profiles)
         recs = run.run_batch(cases, l2, driver, d + ".out")
         with open(mp + ".tmp", "w") as f:
